@@ -93,6 +93,118 @@ example :
       (printMin pyOps e).length = 19 := by
   refine ⟨by decide +kernel, fun n => rfl, by decide +kernel⟩
 
+/-! ## grouping of `expression`: conditional expressions and lambdas -/
+
+/-- `if`, `else`, `lambda` are operators of no level of the generated ladder (they belong to the rule `expression`) -/
+theorem ladder_keywords_free : KwFree (ladderTable ladder).ops := ⟨by decide +kernel, by decide +kernel, by decide +kernel⟩
+
+/-- **Grouping theorem for `expression`.** Terms are the operator terms closed under the conditional expression
+    `body if test else orelse`, `lambda params: body` and parentheses around any `expression` (so: right-nested
+    conditionals, conditionals in lambda bodies, lambdas and conditionals in every branch — parenthesised where the grammar
+    wants an `or_test` —, and any redundant parentheses). The reference parser driven by the generated ladder reads the text
+    CPython's table prints for `t` into the lark-shaped tree (`ternary_test[body, test, orelse]`,
+    `lambdadef[lambdaparams | _, body]`, chains, `group_expr`) whose CPython-style reading is `astOfT t`:
+    `IfExp(test, body, orelse)`, `Lambda(params, body)` and the operator readings of `group`. -/
+theorem group_test (a p : Nat → LarkTree) (ha : ∀ n, isLeafTree (a n) = true) (t : TExpr)
+    (hv : ∀ h ∈ headsT t, h ∈ supportedHeads) :
+    (rdParseTP (infoTOf a p) (printMinT pyOps t)).map toAst = some (astOfT (infoTOf a p) t) := by
+  have hfacts : factsCheck ladder compOps supportedHeads = true := by decide +kernel
+  have hknown : supportedHeads.all (knownHead pyOps) = true := by decide +kernel
+  have hk : knownT pyOps t = true :=
+    knownT_of_headsT pyOps t fun x hx => (List.all_eq_true.mp hknown) x (hv x hx)
+  exact rdParseTP_printMinT (infoTOf a p) supportedHeads (facts_of_check ladder compOps supportedHeads hfacts a ha)
+    ladder_keywords_free ladder_slots_agree.1 t hv hk
+
+/-- the tree itself, and that nothing but the minimally parenthesised term is read -/
+theorem group_test_tree (a p : Nat → LarkTree) (t : TExpr) (hv : ∀ h ∈ headsT t, h ∈ supportedHeads) :
+    rdParseTP (infoTOf a p) (printMinT pyOps t) = some (toLarkT (infoTOf a p) (normalizeT pyOps t)) := by
+  have hknown : supportedHeads.all (knownHead pyOps) = true := by decide +kernel
+  have hk : knownT pyOps t = true :=
+    knownT_of_headsT pyOps t fun x hx => (List.all_eq_true.mp hknown) x (hv x hx)
+  have hv' : ∀ h ∈ headsT (normalizeT pyOps t), h ∈ supportedHeads := by rw [headsT_normalizeT]; exact hv
+  simp only [rdParseTP, infoTOf, printMinT]
+  rw [parseT_printT _ ladder_keywords_free _
+    (nfT_of_tablesCompat pyOps _ supportedHeads ladder_slots_agree.1 _ hv' (nfT_normalizeT pyOps t hk))]
+  rfl
+
+/-- non-vacuity: `lambda a0, a1: (lambda: a2) if a3 else a4 if not a5 == a6 else (a7 if a8 else a9) + a0`;
+    the parentheses around the inner lambda and the inner conditional are added by `printMinT` -/
+example :
+    let t : TExpr := .lam [0, 1] (.ifExp (.lam [] (.atom 2)) (.atom 3)
+      (.ifExp (.atom 4) (.pre 2 (.bin 5 (.atom 5) (.atom 6))) (.bin 18 (.ifExp (.atom 7) (.atom 8) (.atom 9)) (.atom 0))))
+    (∀ h ∈ headsT t, h ∈ supportedHeads) ∧ (printMinT pyOps t).length = 29
+      ∧ parseT (ladderTable ladder).ops (printMinT pyOps t) = some (normalizeT pyOps t) := by
+  refine ⟨by decide +kernel, by decide +kernel, by decide +kernel⟩
+
+/-! ## comparison chains, `not`, the sign operators -/
+
+/-- levels CPython (and, by `ladder_eq_python`, the grammar) gives the prefix operators and the comparisons: `not` (2) is
+    looser than every comparison operator (3), so `not a == b` is `not (a == b)`; `+ - ~` (10) are tighter than every
+    infix operator (≤ 9), so `-a * b` is `(-a) * b`; all of them are in the common vocabulary `group` speaks about -/
+theorem prefix_levels :
+    pyOps.pre 2 = some 2 ∧ pyOps.pre 18 = some 10 ∧ pyOps.pre 19 = some 10 ∧ pyOps.pre 23 = some 10
+    ∧ ([3, 4, 5, 6, 7, 8, 9, 10, 11, 12].all fun o => pyOps.bin o == some 3 && pyKind o == .compare) = true
+    ∧ (tableCodes pyTable).all (fun o => (pyOps.bin o).all (· ≤ 9)) = true
+    ∧ [Head.pre 2, .pre 18, .pre 19, .pre 23].all (fun h => supportedHeads.contains h) = true
+    ∧ [opName 2, opName 18, opName 19, opName 23, opName 10, opName 12] =
+        [c!"not", c!"+", c!"-", c!"~", c!"not in", c!"is not"] := by
+  decide +kernel
+
+/-- `not a == b` needs no parentheses and is `not (a == b)`; `(not a) == b` needs them; `-a * b` is `(-a) * b` -/
+theorem prefix_grouping (x y : Expr) (hx : head x = .leaf) (hy : head y = .leaf) (hnx : nf pyOps x = true) (hny : nf pyOps y = true) :
+    nf pyOps (.pre 2 (.bin 5 x y)) = true ∧ nf pyOps (.bin 5 (.pre 2 x) y) = false
+    ∧ nf pyOps (.bin 20 (.pre 19 x) y) = true ∧ nf pyOps (.pre 19 (.bin 20 x y)) = false := by
+  have e1 : slotOk pyOps (.pre 2) .operand (.bin 5) = true := by decide +kernel
+  have e2 : slotOk pyOps (.bin 5) .left .leaf = true := by decide +kernel
+  have e3 : slotOk pyOps (.bin 5) .right .leaf = true := by decide +kernel
+  have e4 : slotOk pyOps (.bin 5) .left (.pre 2) = false := by decide +kernel
+  have e5 : slotOk pyOps (.bin 20) .left (.pre 19) = true := by decide +kernel
+  have e6 : slotOk pyOps (.bin 20) .right .leaf = true := by decide +kernel
+  have e7 : slotOk pyOps (.pre 19) .operand .leaf = true := by decide +kernel
+  have e8 : slotOk pyOps (.pre 19) .operand (.bin 20) = false := by decide +kernel
+  have hb : ∀ o (l r : Expr), head (.bin o l r) = .bin o := fun _ _ _ => rfl
+  have hp : ∀ o (e : Expr), head (.pre o e) = .pre o := fun _ _ => rfl
+  simp [nf, hb, hp, hx, hy, hnx, hny, e1, e2, e3, e4, e5, e6, e7, e8]
+
+/-- **Comparison chains are one n-ary `Compare`.** A bare chain `first o₁ e₁ … oₙ eₙ` of comparison operators (any of
+    `< > == >= <= != in not in is is not` — the two-word ones are single operators) whose first operand is not itself a
+    bare comparison reads as `Compare(first, [o₁ … oₙ], [e₁ … eₙ])`; with `group` this is what the ladder parser's tree
+    for CPython's text of the chain reads as. -/
+theorem compare_chain (a : Nat → LarkTree) (first : Expr) (steps : List (Nat × Expr)) (o : Nat) (e : Expr)
+    (hops : ∀ s ∈ steps, pyKind s.1 = .compare) (ho : pyKind o = .compare)
+    (hfirst : ∀ o' l r, first = .bin o' l r → pyKind o' ≠ .compare) :
+    astOf a (chainExpr first (steps ++ [(o, e)])) =
+      .compare (astOf a first) (steps.map (·.1) ++ [o]) (steps.map (fun s => astOf a s.2) ++ [astOf a e]) := by
+  rw [chainExpr_snoc, astOf_bin, ho]
+  simp only [cmpParts_chainExpr a steps hops first]
+  have hf : cmpParts a first = (astOf a first, [], []) := by
+    cases first with
+    | bin o' l r =>
+      rw [cmpParts_bin]
+      simp [hfirst o' l r rfl]
+    | atom n => exact cmpParts_other a _ (by intro _ _ _ h; cases h)
+    | paren x => exact cmpParts_other a _ (by intro _ _ _ h; cases h)
+    | pre o' x => exact cmpParts_other a _ (by intro _ _ _ h; cases h)
+  simp [hf]
+
+/-- non-vacuity: `a0 < a1 is not a2 not in a3` is `Compare(a0, [<, is not, not in], [a1, a2, a3])` -/
+example (a : Nat → LarkTree) :
+    astOf a (chainExpr (.atom 0) ([(3, .atom 1), (12, .atom 2)] ++ [(10, .atom 3)])) =
+      .compare (.leaf (a 0)) [3, 12, 10] [.leaf (a 1), .leaf (a 2), .leaf (a 3)] := by
+  have h := compare_chain a (.atom 0) [(3, .atom 1), (12, .atom 2)] 10 (.atom 3)
+    (by intro s hs; simp at hs; rcases hs with rfl | rfl <;> decide +kernel) (by decide +kernel) (by intro _ _ _ h; cases h)
+  simpa [astOf] using h
+
+/-! ## argument lists of a call -/
+
+/-- **Argument list reading.** tranp's reading of the `arguments` subtree lark builds for a call (one child = positional,
+    two children = label and value, tags `starargs` / `kwargs` = `*` / `**`) returns the arguments with their kinds,
+    labels, values and order; CPython's `args` and `keywords` are its positional/starred and named/`**` sublists. -/
+theorem call_arguments (as : List Arg) :
+    readArgs (argsTree as) = as
+    ∧ pyCallArgs (readArgs (argsTree as)) = (as.filter Arg.isPositional, as.filter (fun x => !x.isPositional)) :=
+  ⟨readArgs_argsTree as, pyCallArgs_readArgs as⟩
+
 /-! ## classification: the generated table and the modelled predicates -/
 
 /-- every `match_feature` the generated table can reach is one the model implements -/
